@@ -23,6 +23,7 @@ import (
 	"errors"
 	"fmt"
 	"math/big"
+	"sort"
 
 	"github.com/youchainhq/go-youchain/common"
 	"github.com/youchainhq/go-youchain/common/hexutil"
@@ -183,7 +184,13 @@ func (st *StateDB) newStakingRecord(key biAddress) *stakingRecord {
 
 func (st *StateDB) updateStakingTrie() error {
 	//stakingRecords
+	// in key order, so that an error half-way leaves the same trie on every node
+	keys := make([]biAddress, 0, len(st.stakingRecordsDirty))
 	for key := range st.stakingRecordsDirty {
+		keys = append(keys, key)
+	}
+	sort.Slice(keys, func(i, j int) bool { return bytes.Compare(keys[i][:], keys[j][:]) < 0 })
+	for _, key := range keys {
 		sr := st.stakingRecords[key]
 		data, err := rlp.EncodeToBytes(sr)
 		if err != nil {
